@@ -408,16 +408,22 @@ func cmdCheck(args []string) int {
 	// overlay with every unit's harness files
 	ov := map[string][]byte{}
 	var patterns []string
+	seenHarness := map[string]bool{} // units of one package share their harness files
 	for ui := range spec.Units {
 		u := &spec.Units[ui]
 		patterns = append(patterns, u.Package)
-		for i, h := range u.Harness {
-			b, err := os.ReadFile(filepath.Join(specDir, h))
+		for _, h := range u.Harness {
+			hp := filepath.Clean(filepath.Join(specDir, h))
+			if seenHarness[u.Package+"|"+hp] {
+				continue
+			}
+			seenHarness[u.Package+"|"+hp] = true
+			b, err := os.ReadFile(hp)
 			if err != nil {
 				fmt.Fprintln(os.Stderr, "harness:", err)
 				return 2
 			}
-			ov[filepath.Join(pkgDir(u.Package), fmt.Sprintf("zz_verif_h%d.go", i))] = b
+			ov[filepath.Join(pkgDir(u.Package), fmt.Sprintf("zz_verif_h%d.go", len(seenHarness)))] = b
 		}
 	}
 	ld, err := loadProgram(patterns, ov)
@@ -562,6 +568,7 @@ func cmdCheck(args []string) int {
 				}
 
 				// native confirmation of counterexamples
+				printedKnown := map[string]bool{}
 				for _, v := range res.Violations {
 					totalViol++
 					rf := &replayFileJSON{Property: prop, Package: u.Package, Entry: es.Name, Tier: tier, Label: v.Label, Kind: v.Kind, Detail: v.Detail,
@@ -593,7 +600,10 @@ func cmdCheck(args []string) int {
 					for _, k := range known {
 						if k.kind == "finding" && k.property == prop && k.entry == es.Name && k.label == v.Label {
 							isKnown = true
-							fmt.Printf("KNOWN-FINDING: %s\n", k.text)
+							if !printedKnown[k.text] {
+								printedKnown[k.text] = true
+								fmt.Printf("KNOWN-FINDING: %s\n", k.text)
+							}
 							break
 						}
 					}
